@@ -37,6 +37,10 @@ CHECKS = {
          "bidirectional differential generated-input search against an independent composition of the RustCrypto primitives written from RFC 9580 (hand-written CFB, SEIPDv1/v2 framing, HKDF info strings, S2K, SKESK v4/v6, secret-key CFB/AEAD protection, RFC 3394 key wrap, ECDH KDF + padding, X25519/X448 HKDF), anchored at start-up to the RFC 9580 A.9-A.11 sample messages and the RFC 3394 vector",
          "exploration: every coded S2K count 0..255 (with password lengths around salt+password = octet count) + random S2K points; SEIPDv1 x 11 ciphers (in-memory, streaming, message level); SEIPDv2 x 9 pairs x chunk sizes x 0..3 chunks; SKESK v4 (derived / encrypted session key) and v6; secret-key protection usage 254/253 for 7 zoo keys; PKESK v3/v6 for RSA, ECDH cv25519/P-256/P-384/P-521, X25519, X448 (rPGP -> reference for all, reference -> rPGP for cv25519, P-256, X25519)",
          "the RustCrypto primitive crates are shared with rPGP and trusted; weak-hash / simple S2K that rPGP refuses by documented policy are not sent to it"),
+ "C13": ("DESIGN.md §4 C13",
+         "generated-input search with a differential oracle: fingerprints / key ids computed by an independent reference (MD5/SHA-1/SHA-256 over RFC framing) from key packet bodies de-framed by an own decoder, compared with every accessor path; embedded issuer / recipient fields decoded by own decoders",
+         "exploration: 17 zoo certificates x (public, secret, locked) x all key packets, 1.5k (40k) freshly generated keys of 7 shapes with random creation times, 1.5k (30k) R-wire built RSA keys v3/v4/v6 (modulus 1024..3072 bits, leading 0x01 octet); secret vs public half vs re-parsed (binary/armored); issuer fingerprint/key-id subpackets of default signatures and generated self-signatures, OPS v3 key id / v6 fingerprint, PKESK v3 key id / v6 versioned fingerprint",
+         "leading-zero public material occurrences are measured and reported, not guaranteed per run; v2/v3 keys other than RSA do not exist"),
  "C14": ("DESIGN.md §4 C14",
          "exhaustive small-scope enumeration (all strings over {CR,LF,x} up to length L x all chunkings) + seeded random long strings on buffer edges, differential against a 10-line reference canonicalizer and an independently computed SHA-256 signature digest",
          "exploration with an exhaustively enumerated scope: every string of length <=8 (thorough <=10) over the 3-class alphabet under every source/write chunking and three consumer patterns for NormalizedReader, NormalizingHasher (observed via recording signer) and normalize_lines (observed via the cleartext callback); long strings with patterns on 512/1024/8192 edges; builder and message-reader digests; signature invariance/non-invariance under all single-symbol edits; Utf8-mode CRLF check accept/reject under all chunkings",
